@@ -2,8 +2,11 @@
 
 Streams
   unite : unite_values(a, b, c) decoded structurally            vs Lean `unite`
-  eq    : a == b            vs Lean `Ty.beq`;     hash : hash(a) == hash(b)  vs Lean `Ty.hashEq`
+  eq    : a == b            vs Lean `Ty.beq`;     hash : hash(a) == hash(b)  vs Lean `Ty.hashEq` (every pair, equal or not)
+  hashcoll : ALL pairs of a small universe of values (every atom of the generators; one-level composites over the
+          atoms involved in the systematic zero-hash collision): hash(a) == hash(b) vs `Ty.hashEq`, a == b vs `Ty.beq`
   spec  : Lean `mem` vs the Python reference on the witness objects
+  (eq / hash / hashcoll skip pairs in the model's class `seqArgs`, see ASSUMPTIONS)
 Property search on the implementation (fresh Value objects for every operand occurrence):
   idempotent / commutative / associative up to ==, no nested unions, Never is the identity, the union accepts each
   operand, members(union) = union of members, a == b => hash(a) == hash(b), equal alternatives merged,
@@ -39,7 +42,10 @@ RULE = (
 )
 ASSUMPTIONS = [
     "values of classes outside the Lean term language (TypedDictValue, DictIncompleteValue, CallableValue, exact type[...]) are covered by an implementation-only law stream (`ext`): pairs equal by construction but built differently, bare and nested",
-    "hash(a) == hash(b) is modelled structurally (no accidental collisions); object identity is invisible to the model, the harness builds a fresh Value for every operand occurrence",
+    "hash(a) == hash(b) is modelled structurally, plus the one systematic collision found: a literal v with hash(v) == 0 (0, False, '', b'') gives hash(KnownValue(v)) == hash(TypedValue(type(v))) (= hash of a pair (type, x) with hash(x) == 0), propagating through every enclosing value; other collisions are not modelled -- the `hashcoll` stream compares hash equality on ALL pairs of the small universe so that any further systematic collision shows up as a broken correspondence; accidental 64-bit collisions are assumed away",
+    "object identity is invisible to the model, the harness builds a fresh Value for every operand occurrence",
+    "SequenceValue's dataclass hash and == also cover the derived field args = unite_values(members); the model compares the members only. The two differ only when one sequence form has two flattened members (possibly the same one: an unhashable literal) that are hash-equal but not == (tuple[int, Literal[0]]) or == but not hash-equal (tuple[[1], int], tuple[list[int | str], list[str | int]]): the model's decidable class `seqArgs` (Spec/D14.lean Ty.seqArgsIrregular); pairs in that class are skipped (counted as `seqargs_skipped`) by the eq / hash / hashcoll comparisons, the unite stream still covers them",
+    "IntEnum members inside container literals ((IE.X,) == (1,) in Python, hash-equal too) are outside the object model (Obj.pyEq keeps instances apart from ints): the hashcoll universe holds no IntEnum member inside a container",
     "TypeVarValue / TypedDict / Callable / dict-incomplete values are outside the Lean term language: the substitution laws and the laws on those constructors are searched on the implementation only",
 ]
 TRUSTED = ["Spec/Mem.lean validated against the CPython-isinstance reference (stream spec)"]
@@ -155,6 +161,10 @@ def evaluate(ctx, triples, with_model=True):
             ctx.nontriv(case["a"] + "|" + case["b"] + "|" + case["c"])
         ops_cls = [] if not d_ops or d_ops[i] in ("-", "bad-op") else d_ops[i].split(",")
         pair_cls = [] if not d_pair or d_pair[i] in ("-", "bad-op") else d_pair[i].split(",")
+        # `seqArgs` is not a finding class: it marks the boundary of the fragment on which hash / == are compared
+        seqargs = "seqArgs" in pair_cls
+        ops_cls = [c for c in ops_cls if c != "seqArgs"]
+        pair_cls = [c for c in pair_cls if c != "seqArgs"]
         conforms = True
         # ---- correspondence
         u = unite_impl(a, b, c)
@@ -172,17 +182,19 @@ def evaluate(ctx, triples, with_model=True):
             if iu != mu:
                 conforms = False
                 ctx.disagree("unite", case, iu, mu)
-            ctx.corr("eq")
-            if ("1" if eq is True else "0" if eq is False else eq) != m_beq[i]:
-                conforms = False
-                ctx.disagree("eq", case, eq, m_beq[i])
-            # hash equality is only compared where a == b: unequal values may collide
-            # (hash(KnownValue(0)) == hash(TypedValue(int)) because (int, 0) == (int, False)); the property is eq => hash-eq
-            if eq is True:
+            if seqargs:
+                ctx.tag("seqargs_skipped")
+            else:
+                ctx.corr("eq")
+                if ("1" if eq is True else "0" if eq is False else eq) != m_beq[i]:
+                    conforms = False
+                    ctx.disagree("eq", case, eq, m_beq[i])
+                # hash equality is compared on every pair: the systematic collision of zero-hash literals with the
+                # TypedValue of their class (hash((int, 0)) == hash((int, False))) is part of the model
                 ctx.corr("hash")
-            if eq is True and ("1" if heq is True else "0" if heq is False else heq) != m_heq[i]:
-                conforms = False
-                ctx.disagree("hash", case, heq, m_heq[i])
+                if ("1" if heq is True else "0" if heq is False else heq) != m_heq[i]:
+                    conforms = False
+                    ctx.disagree("hash", case, heq, m_heq[i])
         if i % 293 == 0:
             ctx.sample({"a": case["a"], "b": case["b"], "c": case["c"], "unite": V.ty_sexp(ud) if not isinstance(ud, str) else ud,
                         "a==b": eq, "hash(a)==hash(b)": heq, "D": ops_cls})
@@ -424,23 +436,159 @@ def ext_stream(ctx):
             cand("exception in the laws on %s: %r" % (desc, e), "total")
 
 
+# ------------------------------------------------------------------ hash collisions: all pairs of a small universe
+def _nested_intenum(o, top=True):
+    from harness import universe as U
+    k = o[0]
+    if k == "inst":
+        return (not top) and o[1] == V.CID[U.IE]
+    if k in ("tuple", "list", "set", "fset"):
+        return any(_nested_intenum(x, False) for x in o[1])
+    if k == "dict":
+        return any(_nested_intenum(x, False) for x in o[1] + o[2])
+    return False
+
+
+def hashcoll_universe(big):
+    """(atoms, composites). atoms: every atom the generators draw from. composites: one constructor over the atoms
+    involved in the zero-hash collision and their neighbours (plus a few two-level terms around colliding unions and
+    sequence forms): systematic collisions propagate through tuple hashes, this is where they would (dis)appear."""
+    atoms = ([("any",)] + [("typed", c) for c in G.TYPED] + [("known", o) for o in G.small_objs() if not _nested_intenum(o)]
+             + [("subclass", c) for c in [0, G.INT, G.FLOAT, G.STR, G.BOOL]]
+             + [("newtype", n, G.NT_CLS[n]) for n in range(len(G.NEWTYPES))] + [("union", [])])
+    k0, k1, ks, kn = ("known", ("int", 0)), ("known", ("int", 1)), ("known", ("str", "")), ("known", ("none",))
+    tint, tstr = ("typed", G.INT), ("typed", G.STR)
+    if big:
+        small = [("any",), tint, tstr, ("typed", G.BOOL), ("typed", G.BYTES), k0, k1, ("known", ("bool", 0)), ks,
+                 ("known", ("bytes", "")), kn, ("known", ("list", [])), ("subclass", G.INT), ("newtype", 0, G.NT_CLS[0])]
+        second = small[:9]
+    else:
+        small = [("any",), tint, tstr, k0, k1, ks, ("known", ("bool", 0)), ("typed", G.BOOL), ("known", ("list", [])), ("subclass", G.INT)]
+        second = small[:5]
+    comp = list(small)
+    for x in small:
+        comp += [("generic", G.LIST, [x]), ("generic", G.SEQUENCE, [x]), ("seq", G.TUPLE, [x]), ("seq", G.LIST, [x]),
+                 ("seq", G.TUPLE, [("many", x)]), ("annotated", x)]
+        for y in second:
+            comp += [("union", [x, y]), ("seq", G.TUPLE, [x, y]), ("generic", G.DICT, [x, y])]
+    comp.append(("seq", G.TUPLE, []))
+    pick = [("union", [tint, k0]), ("union", [k0, tint]), ("union", [tint, tstr]), ("union", [tstr, tint]),
+            ("seq", G.TUPLE, [tint, k0]), ("seq", G.TUPLE, [tint, tint]), ("seq", G.TUPLE, [k0, k0])]
+    for x in pick:
+        comp += [("generic", G.LIST, [x]), ("seq", G.TUPLE, [x]), ("annotated", x), ("seq", G.TUPLE, [x, tstr]),
+                 ("generic", G.SET, [x]) if x[0] == "union" else ("union", [x, ("typed", G.FLOAT)])]
+    comp += [("union", [x, y]) for x in pick[4:] for y in pick[4:] if x != y]
+
+    def dedup(ts):
+        seen, out = set(), []
+        for t in ts:
+            k = V.ty_sexp(t)
+            if k not in seen:
+                seen.add(k)
+                out.append(t)
+        return out
+    return dedup(atoms), dedup(comp)
+
+
+def hashcoll_stream(ctx):
+    """hash(a) == hash(b) and a == b on the implementation vs `Ty.hashEq` / `Ty.beq`, for ALL pairs of each group of the
+    small universe (two separately built Values per pair). A systematic hash collision (or a systematic
+    non-collision) that the model does not know is a broken correspondence here."""
+    lines, ref = [], []
+    for group in hashcoll_universe(ctx.big()):
+        vs = []
+        for t in group:
+            try:
+                vs.append((V.ty_sexp(t), val(t), val(t)))
+            except Exception:
+                continue
+        for i, (sa, va, _) in enumerate(vs):
+            for sb, _, vb in vs[i:]:
+                lines += ["heq %s %s" % (sa, sb), "beq %s %s" % (sa, sb), "d14pair %s %s" % (sa, sb)]
+                try:
+                    ref.append((sa, sb, hash(va) == hash(vb), va == vb))
+                except Exception as e:
+                    ref.append((sa, sb, "EXC:%s" % type(e).__name__, "EXC"))
+    out = lean.run_driver("Val", lines)
+    ctx.count(1, hashcoll_pairs=len(ref))
+    ctx.nontriv("hashcoll|%d" % len(ref))
+    coll = 0
+    for k, (sa, sb, h, e) in enumerate(ref):
+        mh, me, cls = out[3 * k], out[3 * k + 1], out[3 * k + 2]
+        if "seqArgs" in cls.split(","):
+            ctx.tag("seqargs_skipped")
+            continue
+        ctx.corr("hashcoll", 2)
+        case = {"a": sa, "b": sb, "stream": "hashcoll"}
+        if mh != ("1" if h is True else "0" if h is False else h):
+            ctx.disagree("hashcoll", case, "hash-equal=%s" % h, "hashEq=%s" % mh)
+        if me != ("1" if e is True else "0" if e is False else e):
+            ctx.disagree("hashcoll", case, "==: %s" % e, "beq=%s" % me)
+        if h is True and e is False:
+            coll += 1
+    ctx.tag("hashcoll_collisions", coll)
+
+
+# ------------------------------------------------------------------ big unions (>= 10 members: literal fast path)
+def gen_big_triples(ctx):
+    """Triples around unions of 9..14 members (MultiValuedValue switches to a hash-set fast path for its literal members
+    at 10): a big union (with / without an unhashable literal, with / without non-literal members) against an
+    unhashable literal, a hashable literal, a second big union, a copy / reordering of itself."""
+    rng = ctx.rng
+    out = []
+    unh = [("known", o) for o in G.BIG_UNHASHABLE]
+    for _ in range(ctx.n(120, 1500)):
+        a = G.gen_big_union(rng)
+        r = rng.random()
+        if r < 0.4:
+            b = rng.choice(unh)
+        elif r < 0.55:
+            b = rng.choice(G.BIG_POOL)
+        elif r < 0.8:
+            b = G.gen_big_union(rng)
+        else:
+            b = reorder(rng, a)
+        r = rng.random()
+        c = rng.choice(unh) if r < 0.35 else rng.choice(G.BIG_EXTRA) if r < 0.6 else G.gen_big_union(rng) if r < 0.75 else a
+        t = [G.norm_term(x) for x in (a, b, c)]
+        rng.shuffle(t)
+        out.append(tuple(t))
+    # fixed shapes: exactly 9 / 10 / 11 literal members plus one unhashable literal operand
+    lits = [("known", ("int", i)) for i in range(12)]
+    for n in (8, 9, 10, 11):
+        for u in unh[:3]:
+            out.append((("union", lits[:n]), u, ("known", ("str", "a"))))
+            out.append((u, ("union", lits[:n] + [u]), ("typed", G.STR)))
+    return out
+
+
 def KnownValueOf(x):
     from pyanalyze.value import KnownValue
     return KnownValue(x)
 
 
 def run(ctx):
-    evaluate(ctx, corpus() + gen_triples(ctx))
+    evaluate(ctx, corpus() + gen_triples(ctx) + gen_big_triples(ctx))
+    hashcoll_stream(ctx)
     ext_stream(ctx)
 
 
 def run_impl_only(ctx):
-    evaluate(ctx, corpus() + gen_triples(ctx), with_model=False)
+    evaluate(ctx, corpus() + gen_triples(ctx) + gen_big_triples(ctx), with_model=False)
     ext_stream(ctx)
 
 
 def replay(ctx, data):
-    ops = data["case"]["ops"]
-    evaluate(ctx, [tuple(totuple(x) for x in ops)])
+    # failing-input replays carry one case; broken-correspondence replays carry the list of disagreements
+    cases = [data["case"]] if "case" in data else [b["case"] for b in data.get("broken", []) if isinstance(b.get("case"), dict)]
+    triples, seen = [], set()
+    for c in cases:
+        if "ops" in c and json.dumps(c["ops"]) not in seen:
+            seen.add(json.dumps(c["ops"]))
+            triples.append(tuple(totuple(x) for x in c["ops"]))
+    if triples:
+        evaluate(ctx, triples)
+    if any(c.get("stream") == "hashcoll" for c in cases):
+        hashcoll_stream(ctx)
     print(json.dumps({"candidates": ctx.candidates[:3], "broken": ctx.broken[:3]}, indent=1, default=str))
     return 1 if (ctx.candidates or ctx.broken) else 0
